@@ -72,7 +72,7 @@ def plan(seed, tier):
                 "world": c02.GEN_WORLD,
                 "fn": "gen_programs",
                 "payload": {"seed": "%s/c20gen/%d" % (seed, g), "count": nprog // ngen, "tier": tier, "corpus": g < 2},
-                "timeout": 300,
+                "timeout": 900,
             }
         )
     return jobs
@@ -104,7 +104,7 @@ def post_plan(seed, tier, jobs, results):
                     "detector": "snapshot" if (ci // chunk) % 2 == 0 else "tripwire",
                     "seed": "%s/c20/%d" % (seed, ci),
                 },
-                "timeout": 600,
+                "timeout": 1200,
             }
         )
     return out
